@@ -1,3 +1,29 @@
-import ViaProofs.Statements
+import ViaProofs.ConnLemmas
+/-
+  C11 — shutdown, close and destruction are safe at every moment.
+
+  The teardown operations (`srv-shutdown`, `srv-close`, `srv-destroy`, `app-disconnect`) are ordinary script
+  operations, so the history invariant of C10 covers every point of every history at which they can be issued and
+  every order of the completions that follow (including late `operation_aborted` completions).  In addition:
+  `C11_close_releases`: after `http_server::close()` no connection is retained and every socket is closed.
+  Memory safety of the C++ (iterator invalidation, use of dead objects) is observed by the ASan /
+  `_GLIBCXX_DEBUG` build of the harness on the same histories; known findings C11-KF1, C11-KF2.
+-/
 namespace Via
+open Sim
+
+theorem C11_invariant_at_every_point (serverOptions : List String) (history : List (List String)) :
+    Inv (history.foldl simOp (mkServer serverOptions)) ∧ Settled (history.foldl simOp (mkServer serverOptions)) :=
+  history_inv serverOptions history
+
+/-- `comms::server::close` after clearing the http map: nothing is retained -/
+theorem C11_close_releases (fuel : Nat) (w : World) :
+    ∀ c ∈ (serverClose (fuel + 1) w true).conns, c.inHttp = false ∧ c.inComms = false := by
+  intro c hc
+  unfold serverClose at hc
+  simp only [↓reduceIte] at hc
+  split at hc <;> simp only [List.mem_map] at hc <;> obtain ⟨d, _, rfl⟩ := hc <;>
+    (first | exact ⟨rfl, rfl⟩ | skip)
+  all_goals (obtain ⟨e, _, rfl⟩ := ‹_›; exact ⟨rfl, rfl⟩)
+
 end Via
